@@ -241,9 +241,11 @@ def _check(pid: str, tier: str, seed: int, t0: float) -> int:
     out_lines: List[str] = []
     violations: List[dict] = []
     by_check: Dict[str, dict] = {}
+    still_failing: Dict[str, dict] = {}
     for f in failures:
         kf = F.match(known, pid, f)
         if kf is not None:
+            still_failing[kf["id"]] = kf
             continue
         v = by_check.get(f.get("check"))
         if v is None:
@@ -268,10 +270,10 @@ def _check(pid: str, tier: str, seed: int, t0: float) -> int:
         violations.append(dict(kind="refuted-obligation", obligation=o.oid,
                                detail=o.detail, model=o.model, smt2=o.smt2,
                                no_failing_input=True))
-    for kf in F.open_for(known, pid):
-        res = F.replay_witness(kf, run_standin)
-        if res:
-            out_lines.append(f"KNOWN-FINDING: property={pid} {kf['what']}")
+    for kf in still_failing.values():
+        # the listed defect is still present on this tree (its witness class
+        # failed in the stand-in); a stale entry prints nothing
+        out_lines.append(f"KNOWN-FINDING: property={pid} {kf['what']}")
     for h in stale:
         out_lines.append(f"AUX-CONTRACT-STALE helper={h} (public clauses "
                          f"re-verified with the helper inlined)")
